@@ -285,7 +285,9 @@ func (iter *DBIterator) materialize(src *kv.Entry) bool {
 			return false
 		}
 		iter.entry.Value = src.Value
-		iter.item.valueBuf = iter.entry.Value
+		// Do not let item.valueBuf alias memory owned by the memtable arena or an
+		// SST block: Item.ValueCopy appends fetched value-log data into it.
+		iter.item.valueBuf = iter.item.valueBuf[:0]
 	}
 	iter.item.e = &iter.entry
 	return true
